@@ -397,7 +397,7 @@ func vfGenMsg(t *rapid.T) vfMsgCase {
 		TaskID: rapid.SliceOfN(rapid.Byte(), 16, 16).Draw(t, "task"), Hash: rapid.SliceOfN(rapid.Byte(), 32, 32).Draw(t, "hash"),
 		Slot: rapid.Uint64().Draw(t, "slot"), Height: rapid.Uint64().Draw(t, "height"),
 		SpaceID: rapid.OneOf(rapid.StringN(0, 40, -1), rapid.SampledFrom([]string{"", "space", "\x00", "\"}", "日本"})).Draw(t, "space"),
-		Index: rapid.Uint32().Draw(t, "index"), KSize: rapid.Uint8().Draw(t, "k"), Pk: rapid.IntRange(0, 11).Draw(t, "pk"), Pool: rapid.IntRange(0, 11).Draw(t, "pool")}
+		Index:   rapid.Uint32().Draw(t, "index"), KSize: rapid.Uint8().Draw(t, "k"), Pk: rapid.IntRange(0, 11).Draw(t, "pk"), Pool: rapid.IntRange(0, 11).Draw(t, "pool")}
 	switch rapid.IntRange(0, 4).Draw(t, "targetKind") {
 	case 0:
 		c.Target = nil
@@ -556,3 +556,37 @@ func vfC16Resources(t *testing.T) {
 }
 
 func vlibReplay() bool { return vlib.ReplayMode() }
+
+// FuzzVerif_C16 is the coverage-guided tier (thorough only): the same oracle as hostile-bytes (no panic; an
+// accepted input re-encodes to a fixed point) over byte strings evolved by Go's native fuzzer from a corpus of
+// valid encodings of all six types and hostile constants. A failing input is saved as a replay of hostile-bytes.
+func FuzzVerif_C16(f *testing.F) {
+	for ty := 0; ty < 6; ty++ {
+		for k := 0; k < 3; k++ {
+			c := vfMsgCase{Type: ty, TaskID: bytes.Repeat([]byte{byte(ty + 1)}, 16), Hash: bytes.Repeat([]byte{byte(k + 3)}, 32), Target: []byte{1, byte(k)}, Slot: uint64(k) << 40, Height: uint64(ty),
+				SpaceID: strings.Repeat("s", k*5), Index: uint32(k), KSize: 32, Pk: k, Pool: k + 1, Proof: bytes.Repeat([]byte{7}, 8*k)}
+			for q := 0; q < k; q++ {
+				c.Quals = append(c.Quals, vfQ{SpaceID: "q", Pk: q, Pool: q + 1, Index: uint32(q), KSize: 32, Quality: []byte{1, 2, 3}, PlotID: []byte{9}, Slot: uint64(q)})
+			}
+			if enc, err := EncodeMessage(c.build()); err == nil {
+				f.Add(enc)
+			}
+		}
+	}
+	for _, s := range []string{"", "{}", "null", "[]", "{\"task_id\":null}", "{\"qualities\":[null]}", "{\"proof\":null}", "{\"proof\":{}}",
+		"{\"task_id\":\"00000000-0000-0000-0000-000000000000\",\"qualities\":[null,null]}", "{\"task_id\":\"00000000-0000-0000-0000-000000000000\",\"proof\":null}", "[[[[[[[["} {
+		for ty := 0; ty < 8; ty++ {
+			f.Add(append([]byte{0, byte(ty)}, s...))
+		}
+	}
+	f.Fuzz(func(t *testing.T, data []byte) {
+		if len(data) > 1<<16 {
+			return
+		}
+		c := vfMsgCase{Raw: data}
+		if fl := vfC16Run(c, vlib.NewCtx()); fl != nil {
+			path := vlib.SaveReplay("C16", "hostile-bytes", fl, c)
+			t.Fatalf("VERIF-FAIL property=C16 check=native-fuzz sig=%s replay=%s: %.1500s", fl.Sig, path, fl.Msg)
+		}
+	})
+}
